@@ -726,7 +726,9 @@ class DistributedShampoo(torch.optim.Optimizer):
                 state_lists[FILTERED_GRAD_LIST],
                 state_lists[DISTRIBUTOR].local_grad_selector,
             )
-        if group[MOMENTUM] != 0.0:
+        # NOTE: The momentum buffers exist iff momentum was non-zero at construction; keep the masked list in
+        # sync even while a scheduler has set the momentum parameter to zero.
+        if MOMENTUM_LIST in state_lists:
             state_lists[MASKED_MOMENTUM_LIST] = compress_list(
                 state_lists[MOMENTUM_LIST],
                 state_lists[DISTRIBUTOR].local_grad_selector,
